@@ -201,6 +201,29 @@ CHECKS = {
     ),
 }
 
+# what the spaces gained after the three rounds of independently seeded changes (DESIGN.md section 9.0); appended to the level text
+EXT = {
+    "C01": "Also explored: min_freq_mod in {None, 0.125, 0.25, 0, per-table adaptive thresholds}, dev samples with an enlarged missing cell, verbose=True, non-default row index.",
+    "C02": "Also explored: thresholds within 0.5% of every cell frequency, explicit min_freq_mod=0, verbose=True, non-default row index.",
+    "C03": "Also explored: numeric-coded ordinal features (ascending/descending, int/float, codes >= 1e6), MulticlassCarver, categorical features with a user vocabulary, fractional continuous targets, probe frames under a non-default index.",
+    "C04": "Also explored: scales needing > 8 significant digits and > 10 decimals, the oracle re-applied after one update_discretizer edit and after summary()/history()/to_json(), non-default index, rebuilt vs fitted object.",
+    "C05": "Also explored: falsy unseen values ('' and 0), user-chosen sentinels, single-group columns, two features sharing their vocabulary, objects edited with update_discretizer before the probe.",
+    "C06": "Also explored: round trip after one edit of each mode, frames lacking a column, multi-feature carvers with a feature dropped for every class, carvers fitted with a dev sample.",
+    "C07": "Also explored: every ordered pair of 25 row types vs the rows alone (two features sharing their vocabulary), ChainedDiscretizer(drop) over all row subsets, a column holding one +inf and one -inf.",
+    "C08": "Also explored: user-chosen str_nan/str_default, two and three id-like companions dropped in the same fit.",
+    "C09": "Also explored: k=4,5 ordered tables, the comb family (2-3 over-represented values between runs of single rows), scales with a cut exactly at 0.",
+    "C10": "Also explored: three id-like columns, a co-missing block, every subset through the n_jobs=2 path, shared vocabulary + new frame, numeric ordinal codes, MulticlassCarver with names colliding with per-class copies, int64 magnitudes above 2**53 next to floats.",
+    "C11": "Also explored: maps x+2^20, 2^-30*x, shifts putting a cut at 0 or across a decade, single-row values between frequent values, categorical rate ties x min_freq_mod.",
+    "C12": "Also explored: user-chosen sentinels, fresh argument objects per estimator, a new frame, re-transform of an output frame, duplicated index labels.",
+    "C13": "Also explored: a second BFS with a raw float NaN leader, update() that splits a group.",
+    "C14": "Also explored: two-measure lists (quantitative and qualitative) with the chain kept alive, Pearson filter, outlier measures.",
+    "C15": "Also explored: colsample<1 under every shuffle outcome (single copy of the target always returned), rows of X permuted alone, the frame replicated 150x, outlier measures with values exactly on a Tukey fence.",
+    "C16": "Also explored: summary() re-checked after one edit, one interval per quantitative row, two features fitted together with history() called twice.",
+    "C17": "Also explored: observers (summary/transform/to_json) before every edit, thresholds replaced by lower values, leaders renamed.",
+    "C18": "Also explored: two distinct unknown values, data holding intermediate-node labels, numeric columns under a string hierarchy, the empty string as unknown value, never-observed leaves.",
+    "C19": "Also explored: category / pandas string dtypes, falsy sort_by values, rare-category frames, feature sets without ordinal features, refit after a first fit that dropped every feature.",
+}
+
 NOT_BUILT = "check not built yet (work in progress, see DESIGN.md §7 for the order)"
 
 
@@ -219,7 +242,7 @@ def main():
                 "evidence_file": f"/verif/evidence/{pid}.json",
                 "replay_cmd_template": f"{PY} -m mc.replay {{path}}",
                 "engine": engine,
-                "level_claimed": {"category": "model_checking", "text": text, "design_ref": ref},
+                "level_claimed": {"category": "model_checking", "text": text + (" " + EXT[pid] if pid in EXT else ""), "design_ref": ref + ", §8.2, §9.0"},
                 "level_note": note,
                 "technique": technique,
             }
